@@ -372,10 +372,10 @@ def templates():
 
 
 def _first_order(p):
-    """no function literal / declaration / module / for / while-set anywhere (the fragment of the folding model)"""
+    """no module / for / while-set anywhere (the fragment of the folding model)"""
     def bad(e):
         if isinstance(e, tuple):
-            if e and e[0] in ("fn", "fndecl", "mod", "for", "whileset", "import"):
+            if e and e[0] in ("mod", "for", "whileset", "import"):
                 return True
             return any(bad(x) for x in e)
         if isinstance(e, list):
